@@ -23,6 +23,7 @@ import GraphiqModel.Proofs.Circuit
 import GraphiqModel.Proofs.SolverSoundMain
 import GraphiqModel.Proofs.SolverCompleteMain
 import GraphiqModel.Proofs.SolverCompleteFlag
+import GraphiqModel.Proofs.SolverCompleteFinal
 namespace Graphiq.C02
 open Graphiq Graphiq.PRow Graphiq.Tab Graphiq.STab
 
@@ -380,20 +381,41 @@ theorem solve_returns_iff (hinv : InverseCircuitComplete) (np : Nat) (adj : Nat 
     obtain ⟨s, hs, _⟩ := solver_complete hinv np adj hnp hsym hirr hiso
     exact ⟨s, hs⟩
 
-/-- **whatever the solver model returns is correct** (every simple graph, every size, every outcome script — no hypothesis on the graph
-    beyond simplicity): if `solve` returns at all, the graph has no isolated vertex (`solve_returns_iff`), so `hfinal` holds and the
-    recorded circuit prepares |G⟩ ⊗ |0…0⟩ exactly.  This is `solve_sound` with its hypothesis `hfinal` removed; it is the form in which
-    the alternate-target solver (C10 `solve_result_correct`, hypothesis `hsolver`) consumes the time-reversed solver. -/
-theorem solve_returns_correct (hinv : InverseCircuitComplete) (np : Nat) (adj : Nat → Nat → Bool) (hsym : ∀ i j, adj i j = adj j i)
-    (hirr : ∀ i, adj i i = false) (s : Solver.St) (h : Solver.solve (graphSTab np adj) = .ok s) :
+/-! ### Soundness without `hfinal`: whatever the solver model returns is correct -/
+
+/-- what `inverse_circuit` returns is the all-|0⟩ tableau (property C11, proved on branch deep-c11 as `STab.inverseCircuit_isZero`; after
+    the repair of D42 the synthesis cannot stop anywhere else).  Hypothesis of the three theorems below; discharged at merge by
+    `fun t t' c hg h => STab.inverseCircuit_isZero t t' c hg h`. -/
+abbrev InverseCircuitEndsInZero : Prop :=
+  ∀ (t t' : STab) (c : List Gate), t.Good → t.inverseCircuit = .ok (t', c) → t'.isZero = true
+
+/-- **`hfinal` holds whenever the solver model returns** (every real commuting target, no assumption on its shape): the final working
+    tableau generates exactly the signed group of |0…0⟩, and the driver's flag `zero=1` is set -/
+theorem final_tableau_is_zero (hzero : InverseCircuitEndsInZero) (target : STab) (hg : target.Good) (s : Solver.St)
+    (h : Solver.solve target = .ok s) :
+    SpanEq s.t (STab.zero (target.n + s.ne)) ∧ s.t.sameGroup (STab.zero (target.n + s.ne)) = true := by
+  have hse := Solver.solve_final_zero hzero target hg s h
+  have inv := Solver.solve_inv target hg s h
+  exact ⟨hse, Solver.sameGroup_zero _ s.t inv.n_eq inv.good hse⟩
+
+/-- **Soundness of the solver model without `hfinal`, any stabilizer target**: whenever `solve target` returns, the recorded circuit,
+    run from all-|0⟩ under EVERY outcome script, succeeds, stays valid and ends in exactly the signed group of `target ⊗ |0…0⟩` -/
+theorem solve_sound_unconditional (hzero : InverseCircuitEndsInZero) (target : STab) (hg : target.Good) (s : Solver.St)
+    (h : Solver.solve target = .ok s) (script : List Bool) :
+    ∃ rs, stabRun s.ne target.n .prob script s.cops = some rs ∧ rs.t.Valid ∧
+      (STab.ofTab rs.t).n = target.n + s.ne ∧
+      ∀ p, (STab.ofTab rs.t).Spn p ↔ (Solver.withEmitters target s.ne).Spn p :=
+  solve_sound_stabilizer target hg s h (final_tableau_is_zero hzero target hg s h).2 script
+
+/-- **whatever the solver model returns on a graph is correct** (every symmetric adjacency, every size, every outcome script): if
+    `solve` returns, the recorded circuit prepares |G⟩ ⊗ |0…0⟩ exactly.  This is `solve_sound` with its hypothesis `hfinal` removed; it is
+    the form in which the alternate-target solver (C10 `solve_result_correct`, hypothesis `hsolver`) consumes the time-reversed solver. -/
+theorem solve_returns_correct (hzero : InverseCircuitEndsInZero) (np : Nat) (adj : Nat → Nat → Bool)
+    (hsym : ∀ i j, adj i j = adj j i) (s : Solver.St) (h : Solver.solve (graphSTab np adj) = .ok s) :
     ∀ script : List Bool, ∃ rs, stabRun s.ne np .prob script s.cops = some rs ∧ rs.t.Valid ∧
-      (STab.ofTab rs.t).n = np + s.ne ∧ ∀ p, (STab.ofTab rs.t).Spn p ↔ (targetSTab np s.ne adj).Spn p := by
-  obtain ⟨hnp, hiso⟩ := (solve_returns_iff hinv np adj hsym hirr).1 ⟨s, h⟩
-  obtain ⟨s', hs', _, hflag⟩ := solver_complete hinv np adj hnp hsym hirr hiso
-  rw [h] at hs'
-  injection hs' with e
-  subst e
-  exact solve_sound np adj hsym s h hflag
+      (STab.ofTab rs.t).n = np + s.ne ∧ ∀ p, (STab.ofTab rs.t).Spn p ↔ (targetSTab np s.ne adj).Spn p :=
+  solve_sound np adj hsym s h
+    (final_tableau_is_zero hzero (graphSTab np adj) (Solver.graphSTab_good np adj hsym) s h).2
 
 /-- the smallest instances of D3 evaluate as the theorem says: K1, 2·K1, K2 + K1 -/
 example : (match Solver.solve (graphSTab 1 fun _ _ => false) with | .error .index => true | _ => false) = true := by
